@@ -203,9 +203,16 @@ type replayBuilder struct {
 	fail    string
 	byRef   map[string]string // "ref/type" -> variable name (aliasing)
 	depth   int
+	nq      int
+	t0      time.Time
 }
 
 func (rb *replayBuilder) query(terms []string) (map[string]string, bool) {
+	rb.nq++
+	if rb.nq > 60 || time.Since(rb.t0) > 90*time.Second {
+		rb.fail = "replay budget exhausted (inputs too large to extract from the model)"
+		return nil, false
+	}
 	sc := rb.script + strings.Join(rb.fixed, "\n") + "\n"
 	m, ok := getValues(sc, terms, rb.cfg, fmt.Sprintf("replay_q%d", len(rb.fixed)))
 	if !ok {
@@ -488,7 +495,8 @@ func (vc *VC) replayOnRealCode(fr *FuncResult, or *ObResult, repo string, rec ma
 	}
 	script := vc.singleScript(or.Ob, false)
 	script = strings.TrimSuffix(strings.TrimSpace(script), "(check-sat)") + "\n"
-	rb := &replayBuilder{vc: vc, cfg: SolverCfg{WorkDir: filepath.Join(os.TempDir(), "govc-replay"), TimeoutMS: 20000}, script: script, pkg: fn.Pkg.Pkg, imports: map[string]string{}, byRef: map[string]string{}}
+	rdir, _ := os.MkdirTemp("", "govc-replay")
+	rb := &replayBuilder{vc: vc, cfg: SolverCfg{WorkDir: rdir, TimeoutMS: 20000}, script: script, pkg: fn.Pkg.Pkg, imports: map[string]string{}, byRef: map[string]string{}, t0: time.Now()}
 	genMu.Lock()
 	var argExprs []string
 	func() {
